@@ -447,6 +447,8 @@ def zone_menu():
           ('tzstr-EST5EDT', tz.tzstr('EST5EDT')), ('tzstr-EST5EDT-rules', tz.tzstr('EST5EDT,M3.2.0,M11.1.0')),
           ('tzstr-EST5EDT-default-rules', tz.tzstr('EST5EDT4,M4.1.0/2,M10.5.0/2')),
           ('tzstr-AEST', tz.gettz('AEST-10AEDT,M10.1.0,M4.1.0/3')),
+          ('tzstr-GMT+3', tz.tzstr('GMT+3')), ('tzstr-GMT+3-posix', tz.tzstr('GMT+3', posix_offset=True)),
+          ('tzstr-UTC-5-posix', tz.tzstr('UTC-5', posix_offset=True)), ('tzstr-EST5', tz.tzstr('EST5')),
           ('tzrange-EST', tz.tzrange('EST', -18000, 'EDT')),
           ('tzrange-EST-explicit', tz.tzrange('EST', -18000, 'EDT', -14400,
                                               relativedelta(hours=+2, month=4, day=1, weekday=SU(+1)),
